@@ -28,8 +28,16 @@ def charge_positions(rng, basis, n):
             o = [exact.dy(x) for x in rng.choice(basis)["center"]]
             mid = [(a + b) / 2 for a, b in zip(c, o)]
             pos = [[m.numerator, 0] if m.denominator == 1 else cg.dyadic(float(m), 30) for m in mid]   # between
-        elif r < 0.75:
+        elif r < 0.6:
             pos = cg.center(rng, 3.0, 3)                                    # nearby, generic
+        elif r < 0.8:
+            # at a distance that puts the Boys argument p |PC|^2 of the tightest primitive pair between 12 and 70
+            # (the cross-over region between the small- and the large-argument behaviour of F_m)
+            p = max(cg.val(e) for e in sh["exps"]) * 2
+            dist = (rng.uniform(12.0, 70.0) / p) ** 0.5
+            v = [rng.uniform(-1, 1) for _ in range(3)]
+            nv = sum(x * x for x in v) ** 0.5 or 1.0
+            pos = [cg.dyadic(float(ci) + dist * x / nv, 16) for ci, x in zip(c, v)]
         else:
             pos = cg.center(rng, rng.choice([30.0, 300.0]), 0)              # far away
         q = cg.val(cg.dyadic(rng.uniform(0.2, 8.0) * rng.choice([1, -1]), 8))
@@ -49,9 +57,28 @@ def gen_cases(tier, seed):
                 same = rng.random() < 0.2
                 sa = cg.shell(rng, la, K=rng.randint(1, kmax), bits=bits)
                 sb = cg.shell(rng, lb, K=rng.randint(1, kmax), bits=bits, cen=sa["center"] if same else None)
-                cases.append({"id": len(cases) + 1, "kind": "pair", "basis": [sa, sb],
-                              "charges": charge_positions(rng, [sa, sb], rng.randint(1, 3 if quick and la + lb > 5 else 5)),
-                              "raw": [[0, 1], [1, 0]]})
+                chs = charge_positions(rng, [sa, sb], rng.randint(1, 3 if quick and la + lb > 5 else 5))
+                if la + lb >= 4:
+                    # charges that put the Boys argument of the first primitive pair at prescribed intermediate values: the
+                    # orders m up to l_a + l_b of F_m(T) are all needed there, and neither limit of F_m applies
+                    ea, eb = cg.val(sa["exps"][0]), cg.val(sb["exps"][0])
+                    pp = ea + eb
+                    P = [(ea * cg.val(x) + eb * cg.val(y)) / pp for x, y in zip(sa["center"], sb["center"])]
+                    tl = [6.0, 11.0, 17.0, 23.0, 26.5, 29.0, 33.0, 37.0, 44.0, 60.0, 95.0]
+                    for t in rng.sample(tl, 2 if quick else 4):
+                        v = [rng.uniform(-1, 1) for _ in range(3)]
+                        nv = sum(x * x for x in v) ** 0.5 or 1.0
+                        dist = (t / pp) ** 0.5
+                        chs.append({"pos": [cg.dyadic(pc + dist * x / nv, 20) for pc, x in zip(P, v)], "q": rng.choice([1.0, -2.5])})
+                cases.append({"id": len(cases) + 1, "kind": "pair", "basis": [sa, sb], "charges": chs, "raw": [[0, 1], [1, 0]]})
+    for la, lb in [(1, 1), (2, 1), (1, 3), (0, 2), (3, 3), (4, 1), (2, 2), (5, 1)][: 8 if quick else 8]:
+        # two DISTINCT centres 1e-3..1e-5 bohr apart, in a frame tens of bohr from the coordinate origin
+        rng = cg.rng_for(seed, "C03", "near", la, lb)
+        o = cg.far_origin(rng)
+        sa = cg.shell(rng, la, K=rng.randint(1, 2), bits=bits, cen=o, hi=min(50.0, cg.exp_cap(la)))
+        sb = cg.shell(rng, lb, K=rng.randint(1, 2), bits=bits, cen=cg.add(o, cg.tiny_offset(rng)), hi=min(50.0, cg.exp_cap(lb)))
+        ch = [{"pos": cg.add(o, cg.center(rng, 2.0, 3)), "q": 1.5}, {"pos": o, "q": -2.0}]
+        cases.append({"id": len(cases) + 1, "kind": "near", "basis": [sa, sb], "charges": ch, "raw": [[0, 1], [1, 0]]})
     for d in range(10 if quick else 60):
         rng = cg.rng_for(seed, "C03", "basis", d)
         n = rng.randint(1, 4)
